@@ -80,7 +80,7 @@ def extract():
     for name in ("_split_into_segments", "_convert_segment_to_regex", "_merge_segments", "_how_many_named_segments",
                  "_convert_to_regex", "_to_regex", "key"):
         fn = _fn(rp, name)
-        d["CONSTS" + name] = _str_consts(fn)
+        d["CONSTS_" + name.lstrip("_")] = _str_consts(fn)
     d["RESERVED_NAMES"] = reserved_names()
     return d
 
@@ -95,6 +95,6 @@ def write_gen():
     lines.append(f"Definition FIELD_HEADERS_RETURN : list string := {coq.slist(d['FIELD_HEADERS_RETURN'])}.")
     lines.append(f"Definition DISAMBIGUATED : string := {coq.s(d['DISAMBIGUATED'])}.")
     for k in sorted(k for k in d if k.startswith("CONSTS")):
-        lines.append(f"Definition {k.replace('CONSTS_', 'CONSTS_')} : list string := {coq.slist(d[k])}.")
+        lines.append(f"Definition {k} : list string := {coq.slist(d[k])}.")
     coq.write_gen("RoutingGen", "\n".join(lines) + "\n")
     return d
